@@ -160,4 +160,23 @@ _EXTRA = {
 for _k, _v in _EXTRA.items():
     CHECKS[_k]["text"] = CHECKS[_k]["text"].rstrip() + " " + _v
 
+# families added in the second wave of round 3 (this text is appended as well)
+_EXTRA2 = {
+    "C06": "The shared-action, scope and hierarchy programs are also explored in feed-back mode: every event a step emits is processed as an input event as well, the way RuntimeV2_x.process_events drives the interpreter.",
+    "C09": "The awaited event of every waiting statement is named by a reference written from the UMIM / Colang naming convention (independent of the interpreter's helper); the head lookup performed at event arrival is compared with the scan (content and order); hosts now include a notation zoo (every notation of a wait on action / flow events, with a reaction monitor) and the generated control-flow grammar of C12 (every state of its interpreter runs).",
+    "C10": "Also: restarted instances of activated flows that FINISH before their first wait; part G - faults that need a second flow (a running child of the faulty flow waiting for the same event, faulty matches on FlowStarted / FlowFinished / FlowFailed, a send argument that turns faulty between the slide and the action-conflict resolution, internal events sent without their optional arguments).",
+    "C11": "Cut kinds: SAVE_RESTORE, AGE (idle time once), AGE_EACH (idle time before every continuation step), RESTORE_AGED (restored state continued after idle time); states carry a RailsConfig like the states LLMRails makes; the lock-step oracle also compares the answers of the library's state-reading actions; API part: snapshots handed out by generate_async (double / triple submit, a request cancelled at any point and retried) explored on the virtual asyncio loop against a fresh instance restoring the same snapshot.",
+    "C12": "Also: loader paths (initialize_state again on the same FlowConfig objects, flows added at run time through AddFlowsAction), Colang 1.0 checkpoint / goto sequences with several gotos per checkpoint, when statements whose case is an or-group.",
+    "C13": "Also: Colang 1.0 block forms (define heads x explicit meta blocks x parameter blocks at several indentation pairs), blanks after the lines of multi-line strings, 24 end-of-line comment payloads (quotes, triple quotes, keywords ...) at every admissible position of programs whose strings look like syntax.",
+    "C14": "Also: an instance-state oracle (no call may change the runtime's flow table or module state) with repetition chains (the same call up to 1500 / 6000 times on the used runtime), while loops with 3-12 rounds, every assignment of indentation steps to the block kinds, augmented assignment (+= / -=) with compound right-hand sides.",
+    "C15": "Also: equal per-request parameter values, properly nested vs overlapping completion orders judged separately, a parameter the LLM object only takes through model_kwargs, a world whose input rail action keeps a list in the context and changes it in place.",
+    "C16": "Also: options passed as one GenerationOptions object reused across calls (after a user-only call), an earlier ordinary call of the same conversation served from the events cache, input rails that refuse with a message taken from a variable (the refusal is then checked by the output rails).",
+    "C17": "Also: a wall-clock horizon per turn (a turn that never returns is reported), generated flows that are long / loop for ever / call unknown subflows in multi-step mode, Colang 2.x generated values interpolated into a message with two placeholders (brace and variable syntax must arrive literally).",
+    "C18": "Also: ordered stop lists of one or two (self-/mutually overlapping) stop sequences with a multi-stop reference, texts that never show the configured prefix.",
+    "C19": "Also: burst arrivals, a model call that raises (at most one per schedule; every request returns model(text) or the injected error, nobody waits for ever), the same index used from a second event loop after a first round.",
+    "C20": "Also: loads of the root folder itself and of single files are judged (only configuration directories below the root may be loaded), part C - every sequence of <=2 / <=3 requests over id lists that collide under a '-' join with the rails cache kept warm (oracle: the answer of a server that has seen no other request), streamed requests (`stream: true`) in the thread alphabet.",
+}
+for _k, _v in _EXTRA2.items():
+    CHECKS[_k]["text"] = CHECKS[_k]["text"].rstrip() + " " + _v
+
 NOT_APPLICABLE = {}
